@@ -32,8 +32,8 @@ EXPLANATION = (
     'for every field, tag and alias carrying a redactor and covers every Redacted subclass. '
     'R5: the caller set deciding parent chaining is closed over the ancestor chain. Decides '
     'these structural parts, not the content of redacted strings.'
-    ' RD (decision drift, stonelint.conddrift): the tests of the functions this property is anchored in (stonelint.ownership) are compared with reference/conditions.json; a relation, polarity or connective changed over the same operands, or an operand purely added or dropped, is a violation; re-spellings and new or removed tests are not claimed.'
-    " RE (expression drift, stonelint.exprdrift): the same functions' attribute names, variable reads, simple statements, calls and arithmetic/slice literals are compared with reference/expressions.json; a substituted attribute or variable, a dropped call or assignment, swapped arguments or a changed literal is a violation; any other edit is not claimed. RC (call-condition drift, stonelint.conddrift.run_calls): for every call of a repository or imported-library function in those functions, the path conditions of its occurrences are compared with reference/conditions.json by truth table; an assignment under which the function used to make the call and now completes without it is a violation (tests on memo tables, emptiness of the iterated collection and earlier refusals excepted; re-spelled conditions are not claimed). MK (memo-key rule, stonelint.memo): a memo table or done-set the reference tree does not have must be keyed by every access path the skipped code reads, injectively and type-aware.")
+    ' RD (effect-condition drift, stonelint.effects): for the functions this property is anchored in (stonelint.ownership) the path formula of every raise / return / continue / break / assignment / call statement is compared with reference/effects.json by truth table over the leaf tests (so nested vs merged tests, guard clauses vs if/else ladders, De Morgan forms read alike); an effect lost on a path, or a control effect gained on one, is a violation; changed texts and re-spelled tests are not claimed.'
+    " RE (expression drift, stonelint.exprdrift): the same functions' attribute names, variable reads, simple statements, calls and arithmetic/slice literals are compared with reference/expressions.json; a substituted attribute or variable, a dropped call or assignment, swapped arguments or a changed literal is a violation; any other edit is not claimed. RC (call-condition drift, stonelint.effects.run_calls): for every call of a repository or imported-library function in those functions, the path conditions of its occurrences are compared with reference/effects.json by truth table; an assignment under which the function used to make the call and now completes without it is a violation (tests on memo tables, emptiness of the iterated collection and earlier refusals excepted; re-spelled conditions are not claimed). MK (memo-key rule, stonelint.memo): a memo table or done-set the reference tree does not have must be keyed by every access path the skipped code reads, injectively and type-aware.")
 ASSUMPTIONS = [
     'bb.Union.__init__ reads all tag maps by design: it builds a local value and nothing leaves '
     'the process without passing encode_union (exempt by name)',
@@ -535,12 +535,12 @@ def run(pm, ctx):
                      'a reference to an alias is emitted as the alias validator (which carries the '
                      'alias\'s redactor), never inlined (shared with C08-R4)')
 
-    from ..conddrift import run_decisions
+    from ..effects import run_decisions
     from ..ownership import OWN
     run_decisions(pm, ctx, 'C13-RD', OWN['C13'])
     from .. import exprdrift
     exprdrift.run(pm, ctx, 'C13-RE', OWN['C13'])
-    from ..conddrift import run_calls
+    from ..effects import run_calls
     run_calls(pm, ctx, 'C13-RC', OWN['C13'])
     from .. import memo
     memo.run(pm, ctx, 'C13-MK', OWN['C13'])
